@@ -1090,9 +1090,17 @@ func edgeEntropyScore(n *Node, edges EdgeMap, self int64) float64 {
 		}
 	}
 	if total != 0 {
+		// Floating-point addition is not associative and map iteration
+		// order is random: add the terms in a fixed (sorted) order so
+		// that the score does not depend on the iteration order.
+		terms := make([]float64, 0, len(edges))
 		for _, e := range edges {
 			frac := float64(abs64(e.Weight)) / float64(total)
-			score += -frac * math.Log2(frac)
+			terms = append(terms, -frac*math.Log2(frac))
+		}
+		sort.Float64s(terms)
+		for _, t := range terms {
+			score += t
 		}
 		if self > 0 {
 			frac := float64(abs64(self)) / float64(total)
